@@ -100,6 +100,7 @@ def run_ops(case, real_connection_made=False):
                 if b[0] == 'removes':
                     for (n, l, c) in b[1]:
                         watch(proto.remove_event_listener(n, listener(l)), c)
+                return (None, 1, 0, 'x')[lid % 4]       # what a listener returns must not matter
             listeners[lid] = fn
         return listeners[lid]
 
